@@ -330,6 +330,41 @@ def clampF32 (mi mx x : Float32) : Float32 :=
   let x := if x < mi then mi else x
   if x > mx then mx else x
 
+/-! ### CmaEqualizer (`src/cma.rs`, "WIP") -/
+
+/-- one iteration of the sample loop of `CmaEqualizer::work`: `error = |s|² − R`; every tap gets
+`+= ((step·error) · conj(coeff)) · s` (`f32 · Complex` scales both parts, then `num_complex`'s product); the output
+sample is `Σ tapⱼ · inputⱼ` over the START of the read window (`input.iter()`, not offset by `i`), summed from
+`Complex::zero()`. Returns the new taps and the output sample. -/
+def cmaStep (modulus step : Float32) (coeffs win : List C32) (taps : List C32) (s : C32) : List C32 × C32 :=
+  let err := (s.1 * s.1 + s.2 * s.2) - modulus
+  let f := step * err
+  let taps' := List.zipWith (fun (t c : C32) =>
+    let cc : C32 := (f * c.1, f * (-c.2))
+    c32Ops.add t (c32Ops.mul cc s)) taps coeffs
+  (taps', (List.zipWith c32Ops.mul taps' win).foldl c32Ops.add c32Ops.zero)
+
+def cmaLoop (modulus step : Float32) (coeffs win : List C32) : List C32 → List C32 → List C32 → List C32 × List C32
+  | taps, [], out => (taps, out)
+  | taps, s :: rest, out =>
+    let r := cmaStep modulus step coeffs win taps s
+    cmaLoop modulus step coeffs win r.1 rest (out ++ [r.2])
+
+/-- `CmaEqualizer::work`: exactly `ntaps` samples per call; the coefficients are all zero and never written. -/
+def cmaWork (ntaps : Nat) (modulus step : Float32) (taps : List C32) (v : View) : List C32 × Out :=
+  let i := in0 v
+  if i.samples.length < ntaps then (taps, noOut v (.waitIn 0 ntaps))
+  else if (out0 v).free < ntaps then (taps, noOut v (.waitOut 0 ntaps))
+  else
+    let win := (i.samples.take ntaps).map c32Codec.dec
+    let r := cmaLoop modulus step (List.replicate ntaps (0.0, 0.0)) win taps win []
+    let tags := i.tags.filter fun t => decide (t.pos < ntaps)
+    (r.1, { consumed := [ntaps], produced := [⟨r.2.map c32Codec.enc, tags⟩], verdict := .again })
+
+def cmaBlock (ntaps : Nat) (modulus step : Float32) : Block :=
+  { σ := List C32, init := (1.0, 0.0) :: List.replicate (ntaps - 1) (0.0, 0.0)
+    work := cmaWork ntaps modulus step, eof := fun _ v => macroEof v }
+
 def dspSync (name : String) (p : List Nat) : Option SyncSpec :=
   match name, p with
   | "iir1", [alpha] =>
@@ -358,6 +393,7 @@ def dspRegistry (name : String) (p : List Nat) : Option Block :=
       (dotAvx f32Ops) (taps.map f32))
   | "fftx", taps => some (fftBlock giOps giCodec (taps.map giCodec.dec))
   | "fftstream_x", [size] => some (fftStreamBlock (giDft size) size)
+  | "cma", [ntaps, modulus, step] => if ntaps = 0 then none else some (cmaBlock ntaps (f32 modulus) (f32 step))
   | _, _ => (dspSync name p).map (·.block)
 
 end RR.Dsp
